@@ -46,6 +46,11 @@ MUTANTS = [  # (contract module, qualname, file, regex, replacement, expect)  ex
  ("contracts.c15", "DynamicBayesianNetwork.add_edge", "pgmpy/models/DynamicBayesianNetwork.py", r"and nx.has_path\(self, end, start\)", "and nx.has_path(self, start, end)", "break"),
  ("contracts.c15", "DynamicBayesianNetwork.add_edge", "pgmpy/models/DynamicBayesianNetwork.py", r"DynamicNode\(start\[0\], 1 - start\[1\]\), DynamicNode\(end\[0\], 1 - end\[1\]\)", "DynamicNode(end[0], 1 - end[1]), DynamicNode(start[0], 1 - start[1])", "break"),
  ("contracts.c15", "DynamicBayesianNetwork.add_edge", "pgmpy/models/DynamicBayesianNetwork.py", r'        if start == end:\n            raise ValueError\("Self Loops are not allowed"\)\n        elif', '        if False:\n            raise ValueError("Self Loops are not allowed")\n        elif', "break"),
+ ("contracts.c15", "DAG.add_edges_from", "pgmpy/base/DAG.py", r"self.add_edge\(ebunch\[index\]\[0\], ebunch\[index\]\[1\], weight=weights\[index\]\)", "super(DAG, self).add_edge(ebunch[index][0], ebunch[index][1], weight=weights[index])", "break"),
+ ("contracts.c15", "DAG.add_edges_from", "pgmpy/base/DAG.py", r"for index in range\(len\(ebunch\)\):", "for index in range(len(ebunch) - 1):", "break"),
+ ("contracts.c15", "DAG.add_edges_from", "pgmpy/base/DAG.py", r"self.add_edge\(edge\[0\], edge\[1\]\)", "self.add_edge(edge[1], edge[0])", "break"),
+ ("contracts.c15", "DAG.add_edges_from", "pgmpy/base/DAG.py", r"            for edge in ebunch:\n                self.add_edge\(edge\[0\], edge\[1\]\)", "            for pair in ebunch:\n                tail, head = pair[0], pair[1]\n                self.add_edge(tail, head)", "hold"),
+ ("contracts.c08", "DAG.local_independencies", "pgmpy/base/DAG.py", r"        independencies = Independencies\(\)\n        for variable in \(\n            variables if isinstance\(variables, \(list, tuple\)\) else \[variables\]\n        \):\n            non_descendents = \(\n                set\(self.nodes\(\)\)\n                - \{variable\}\n                - set\(nx.dfs_preorder_nodes\(self, variable\)\)\n            \)", "        independencies = Independencies()\n        descendents = set()\n        for variable in (\n            variables if isinstance(variables, (list, tuple)) else [variables]\n        ):\n            descendents.update(nx.dfs_preorder_nodes(self, variable))\n            non_descendents = set(self.nodes()) - {variable} - descendents", "break"),
 ]
 
 
